@@ -456,7 +456,14 @@ func (c *conn) WriteTo(w io.Writer) (n int64, err error) {
 }
 
 func (c *conn) Flush() error {
-	return c.loop.write(c)
+	if err := c.loop.write(c); err != nil {
+		return err
+	}
+	// A partial flush in level-triggered mode has to be finished by the poller.
+	if !c.loop.engine.opts.EdgeTriggeredIO && c.opened && !c.outboundBuffer.IsEmpty() {
+		return c.loop.poller.ModReadWrite(&c.pollAttachment, false)
+	}
+	return nil
 }
 
 func (c *conn) InboundBuffered() int {
